@@ -257,3 +257,119 @@ Proof.
     - exact X3. }
   eapply frame_trans; [exact (proj2 Ma0)|]. eapply frame_trans; [exact (proj2 M1)|exact F].
 Qed.
+
+(* ---------------------------------------------------------------------------------------------- LOCK with the UPDATE flag on a held key *)
+Lemma hold_ok_cmd l k lid c :
+  hold_ok l k lid -> c_lockid c = lid -> c_count c = 0 -> c_rcount c = 0 -> c_tflag c = 0 ->
+  has (c_flag c) LOCK_FLAG_FROM_AOF = false ->
+  forall l', l_key l' = l_key l -> l_locked l' = l_locked l -> l_ack l' = l_ack l -> l_long l' = l_long l ->
+             l_eT l' = MAXT -> l_isaof l' = l_isaof l -> l_expried l' = l_expried l -> l_refc l' = l_refc l ->
+             l_cmd l' = c -> hold_ok l' k lid.
+Proof.
+  intros (H1 & H2 & H3 & H4 & H5 & H6 & H7 & H8 & _) C1 C2 C3 C4 C5 l' E1 E2 E3 E4 E5 E6 E7 E8 E9.
+  unfold hold_ok. rewrite E1, E2, E3, E4, E5, E6, E7, E8, E9, C1, C2, C3, C4. repeat split; auto.
+Qed.
+
+Lemma hold_ok_data l k lid ld : hold_ok l k lid -> hold_ok (l <| l_data := ld |>) k lid.
+Proof. destruct l. intros H. exact H. Qed.
+Lemma hold_ok_logged l k lid x y : hold_ok l k lid -> hold_ok (l <| l_conn := x |> <| l_data := y |> <| l_isaof := true |>) k lid.
+Proof. destruct l. unfold hold_ok. cbn. intros (H1 & H2 & H3 & H4 & H5 & H6 & H7); repeat split; tauto. Qed.
+
+Lemma update_and_rearm_mv s k r d l q rq tmo ex o :
+  sees s k r (mkV (Some (held_mgr r d)) (Some l) q) -> hold_ok l k k -> (ex = 32767 \/ ex = 65535) ->
+  exists l', update_and_rearm s k r (kvc rq 34 k k tmo ex o) = (setl s r l', []) /\ hold_ok l' k k /\ l_data l' = l_data l.
+Proof.
+  intros S Hh Hex. pose proof Hh as (H1 & H2 & H3 & H4 & H5 & H6 & H7 & H8 & H9 & H10 & H11 & H12 & H13).
+  unfold update_and_rearm. rewrite (sees_getl _ _ _ _ _ S eq_refl), H4.
+  unfold update_locked_lock. rewrite (sees_getl _ _ _ _ _ S eq_refl), (sees_getm _ _ _ _ _ S eq_refl).
+  cbn [c_eflag c_expried c_tflag kvc held_mgr m_cur m_locks].
+  change (has EF_KV EF_UNLIMITED) with true. change (has EF_KV EF_NO_RESET_ECC) with true.
+  change (has EF_KV EF_MILLISECOND) with false. change (has 0 TF_NO_RESET_TCC) with false.
+  rewrite N.eqb_refl. cbn [negb orb andb].
+  destruct Hex as [-> | ->].
+  - change (32767 <? 65535) with true. cbv iota beta zeta.
+    unfold expiry_deadline. cbn [c_eflag kvc]. change (has EF_KV EF_UNLIMITED) with true. cbv iota.
+    cbn [l_isaof set]. rewrite H6. cbn [negb andb].
+    match goal with |- context [setl s r ?lf] => set (lf' := lf) end.
+    assert (G : getl (setl s r lf') r = lf').
+    { unfold getl. change (Types.store (setl s r lf')) with (aset (Types.store s) r lf'). rewrite aget_aset_same. reflexivity. }
+    rewrite G. replace (l_eT lf') with MAXT by reflexivity. rewrite H5, Z.eqb_refl. cbn [negb].
+    exists lf'. split; [reflexivity|]. split; [|reflexivity].
+    apply (hold_ok_cmd l k k (kvc rq 34 k k tmo 32767 o) Hh); try reflexivity.
+  - change (65535 <? 65535) with false. cbv iota beta zeta.
+    cbn [l_isaof set]. rewrite H6. cbn [negb andb].
+    match goal with |- context [setl s r ?lf] => set (lf' := lf) end.
+    assert (G : getl (setl s r lf') r = lf').
+    { unfold getl. change (Types.store (setl s r lf')) with (aset (Types.store s) r lf'). rewrite aget_aset_same. reflexivity. }
+    rewrite G. replace (l_eT lf') with (l_eT l) by reflexivity. rewrite H5, Z.eqb_refl. cbn [negb].
+    exists lf'. split; [reflexivity|]. split; [|reflexivity].
+    apply (hold_ok_cmd l k k (kvc rq 34 k k tmo 65535 o) Hh); try reflexivity. exact H5.
+Qed.
+
+Lemma lock_update s rq k tmo ex o r d l q :
+  sees s k r (mkV (Some (held_mgr r d)) (Some l) q) -> hold_ok l k k -> leader s = true -> wf_cur d ->
+  (ex = 32767 \/ ex = 65535) -> kv_op o -> wf_op o -> fixes8 current_fixes ->
+  exists s' evs cur' l',
+    finish (lock_step s the_conn (kvc rq 34 k k tmo ex (Some (frame_of_op o)))) = (s', evs) /\
+    find_panic evs = None /\ find_reply rq evs = Some (R_LOCKED_ERROR, get_lock_data d) /\
+    abs all_fixes cur' = apply (abs all_fixes d) o /\ wf_cur cur' /\ hold_ok l' k k /\
+    moves s s' k r (mkV (Some (held_mgr r cur')) (Some l') q).
+Proof.
+  intros S Hh HL Hwd Hex Ho Hw Hfx.
+  pose proof Hh as (H1 & H2 & H3 & H4 & H5 & H6 & H7 & H8 & H9 & H10 & H11 & H12 & H13).
+  set (c := kvc rq 34 k k tmo ex (Some (frame_of_op o))).
+  unfold lock_step. cbn [c_key kvc c c_flag c_timeout c_tflag c_count].
+  change (has 34 LOCK_FLAG_CONCURRENT_CHECK) with false. cbn [andb].
+  destruct S as (Sm & Sl & Sq). cbn [v_m v_l v_q] in Sm, Sl, Sq. rewrite Sm.
+  assert (S : sees s k r (mkV (Some (held_mgr r d)) (Some l) q)) by (repeat split; assumption).
+  cbv zeta. rewrite (sees_getm _ _ _ _ _ S eq_refl). rewrite HL.
+  cbn [negb andb held_mgr m_locked m_cur m_waited N.ltb N.compare].
+  change (1 ?= 0) with Gt. cbv iota beta.
+  change (has 34 LOCK_FLAG_SHOW) with false. cbn [andb]. cbv iota beta.
+  unfold get_locked_lock. cbn [m_cur held_mgr]. change (c_lockid c) with k.
+  rewrite (sees_getl _ _ _ _ _ S eq_refl), H9, N.eqb_refl.
+  rewrite !(sees_getl _ _ _ _ _ S eq_refl), H3. change (negb (255 =? 255)) with false. cbv iota beta.
+  change (has (c_flag c) LOCK_FLAG_UPDATE) with true. cbv iota beta.
+  change (has_data_flag c) with true. cbv iota beta.
+  destruct (process_data_mv s k r c _ _ _ o S eq_refl Ho Hw Hwd Hfx) as (s1 & cur' & ld' & Ep & Ha & Hwc & M1).
+  cbn [m_data held_mgr] in Ha.
+  rewrite Ep.
+  set (l1 := l <| l_data := ld' |>) in *.
+  assert (G1 : getl s1 r = l1) by apply (sees_getl _ _ _ _ _ (proj1 M1) eq_refl).
+  assert (Gm1 : getm s1 k = held_mgr r d <| m_data := cur' |>) by apply (sees_getm _ _ _ _ _ (proj1 M1) eq_refl).
+  assert (Hh1 : hold_ok l1 k k) by (apply hold_ok_data; exact Hh).
+  rewrite !G1, !Gm1.
+  match goal with |- context [if ?b then _ else _] =>
+    lazymatch b with _ && check_locked_equal _ _ _ => destruct b eqn:Eeq end end.
+  - (* nothing to update: answered at once *)
+    unfold finish. exists s1, ([] ++ [reply the_conn c R_LOCKED_ERROR (m_locked (held_mgr r d <| m_data := cur' |>)) (l_locked l1) (data_of s k)]), cur', l1.
+    split; [reflexivity|]. split; [reflexivity|]. split.
+    { cbn [app find_reply reply c_req c kvc]. unfold the_conn. rewrite !N.eqb_refl. cbn [andb].
+      unfold data_of. rewrite (sees_getm _ _ _ _ _ S eq_refl). reflexivity. }
+    split; [exact Ha|]. split; [exact Hwc|]. split; [exact Hh1|]. exact M1.
+  - (* new terms: update, log record, (empty) wake-up pass *)
+    destruct (update_and_rearm_mv s1 k r _ _ _ rq tmo ex (Some (frame_of_op o)) (proj1 M1) Hh1 Hex) as (l2 & Eu & Hh2 & Hd2).
+    fold c in Eu. rewrite Eu.
+    pose proof (mv_setl s1 k r _ l2 (proj1 M1)) as M2. cbn [v_m v_l v_q] in M2.
+    pose proof (mv_updl _ k r _ (fun l : lockrec => l <| l_conn := the_conn |>) (proj1 M2)) as M3. cbn [option_map v_m v_l v_q] in M3.
+    match type of M3 with moves _ ?t _ _ _ => set (s3 := t) in * end.
+    change (has (c_flag c) LOCK_FLAG_FROM_AOF) with false. change (has (c_tflag c) TF_REQUIRE_ACKED) with false.
+    cbn [negb andb]. cbv iota beta.
+    rewrite (sees_getl _ _ _ _ _ (proj1 M3) eq_refl). cbn [l_isaof set].
+    pose proof Hh2 as (_ & _ & _ & _ & _ & Hia2 & _). rewrite Hia2. cbv iota beta.
+    assert (F13 : frame s s3 k r).
+    { eapply frame_trans; [exact (proj2 M1)|]. eapply frame_trans; [exact (proj2 M2)|exact (proj2 M3)]. }
+    destruct (push_lock_aof_mv s3 k r AOF_FLAG_UPDATED _ _ _ (proj1 M3)) as (s4 & rec & cur2 & ld2 & Ea & A1 & A2 & A3 & M4).
+    { rewrite (f_leader _ _ _ _ F13). exact HL. }
+    { cbn [l_cmd set]. apply Hh2. }
+    rewrite Ea.
+    unfold finish, run_wake, wake_fuel. cbn [w_key].
+    unfold wake_iter. cbn [w_key]. destruct M4 as [S4 F4]. pose proof S4 as (Sm4 & _). cbn [v_m] in Sm4. rewrite Sm4.
+    cbn [m_waited held_mgr set negb]. cbv iota beta.
+    eexists s4, _, cur2, _. split; [reflexivity|]. split; [reflexivity|]. split.
+    { cbn [app find_reply reply c_req c kvc]. unfold the_conn. rewrite !N.eqb_refl. cbn [andb].
+      unfold data_of. rewrite (sees_getm _ _ _ _ _ S eq_refl). reflexivity. }
+    split; [rewrite A1; exact Ha|]. split; [apply A2; exact Hwc|].
+    split; [|split; [exact S4|eapply frame_trans; [exact F13|exact F4]]].
+    apply hold_ok_logged. exact Hh2.
+Qed.
